@@ -77,8 +77,11 @@ func (d *deduplicator) notifyDKGResultSubmitted(
 ) bool {
 	d.dkgResultHashCache.Sweep()
 
-	cacheKey := newDKGResultSeed.Text(16) +
-		hex.EncodeToString(newDKGResultHash[:]) +
+	// The components are separated with a character that cannot occur in any
+	// of them so that two different (seed, hash, block) triples never produce
+	// the same key.
+	cacheKey := newDKGResultSeed.Text(16) + ":" +
+		hex.EncodeToString(newDKGResultHash[:]) + ":" +
 		strconv.Itoa(int(newDKGResultBlock))
 
 	// Add is an atomic test-and-set: it returns true only for the one caller
